@@ -29,3 +29,29 @@ Theorem generate_color_value_tables : forall minify unsupported hex,
   0 <= hex < 2 ^ 32 ->
   spec_color_value colorNameToHex (generate_color shortColorName minify unsupported hex) = Some hex.
 Proof. apply generate_color_value_all. exact color_names_consistent_all. Qed.
+
+(* alphaFractionTable: the text printed for alpha byte a (rgba() fallback) is a
+   CSS number whose value, scaled by 255 and rounded to nearest (what
+   parseAlphaByte / a browser does), is a again - strictly inside the rounding
+   interval, so float rounding cannot flip it.  Finite domain: 256 bytes. *)
+From V Require Import C12.NumberSpec.
+Fixpoint until_space (l : list Z) : list Z :=
+  match l with [] => [] | c :: r => if c =? 32 then [] else c :: until_space r end.
+Definition alpha_text_of (a : Z) : list Z :=
+  until_space (firstn 4 (skipn (Z.to_nat (4 * a)) alphaFractionTable)).
+Definition alpha_ok (a : Z) : bool :=
+  match css_number_value (alpha_text_of a) with
+  | Some (m, e) => (e <=? 0) && ((2 * 255 * m + 10 ^ (- e)) / (2 * 10 ^ (- e)) =? a)
+  | None => false
+  end.
+Fixpoint upto (n : nat) : list Z := match n with O => [] | S k => upto k ++ [Z.of_nat k] end.
+Lemma in_upto n a : 0 <= a < Z.of_nat n -> In a (upto n).
+Proof.
+  induction n as [|n IH]; intros H; [lia|]. cbn [upto]. apply in_or_app.
+  destruct (Z.eq_dec a (Z.of_nat n)) as [->|Hne]; [right; left; reflexivity | left; apply IH; lia].
+Qed.
+Theorem alpha_table_roundtrip_all : forall a, 0 <= a < 256 -> alpha_ok a = true.
+Proof.
+  intros a H. assert (F : forallb alpha_ok (upto 256) = true) by (vm_compute; reflexivity).
+  rewrite forallb_forall in F. apply F. apply in_upto. exact H.
+Qed.
